@@ -231,8 +231,9 @@ static int32_t wr_summary(struct jls_core_fsr_s * self, uint8_t level) {
     ROE(wr_index(self, level));
 
     uint8_t * p_start = (uint8_t *) dst->summary;
-    uint8_t * p_end = (uint8_t *) dst->summary->data[dst->summary->header.entry_count];
-    uint32_t payload_len = (uint32_t) (p_end - p_start);
+    // entries are 4 x f32 or 4 x f64: use the recorded entry size, not the f32 struct layout
+    uint32_t payload_len = (uint32_t) (sizeof(dst->summary->header)
+            + (((size_t) dst->summary->header.entry_count) * dst->summary->header.entry_size_bits) / 8);
     ROE(jls_core_wr_summary(self->parent->parent, self->parent->signal_def.signal_id, JLS_TRACK_TYPE_FSR, level,
                             p_start, payload_len));
     ROE(jls_core_fsr_summaryN(self, level + 1, pos_next));
